@@ -1000,8 +1000,10 @@ package scipipe
 //@   modifies map[string]*OutParamPort, outParamPort.RemotePorts[*], InParamPort.ready, outParamPort.ready
 //@   ensures connected: outParamPort.ready && len(outParamPort.RemotePorts) > 0
 
+//@ define keyedByName(m map[string]WorkflowProcess) bool = forall k string :: k in m ==> m[k] != nil && procName(m[k]) == k
 //@ func (*Workflow).reconnectDeadEndConnections(wf, procs)
 //@   props C16
+//@   requires keyed: keyedByName(procs)
 //@   modifies map[string]*InPort, map[string]*OutPort, map[string]*InParamPort, map[string]*OutParamPort, InPort.ready, OutPort.ready, InParamPort.ready, OutParamPort.ready, wf.driver, procs[*]
 //@   ensures run-set-only-shrinks: forall k string :: k in procs ==> old(k in procs) && procs[k] == old(procs[k])
 //@   ensures only-driver-removed: forall k string :: old(k in procs) && !(k in procs) ==> old(procs[k]) == wf.driver
@@ -1009,7 +1011,7 @@ package scipipe
 
 //@ func (*Workflow).runProcs(wf, procs)
 //@   props C04 C16
-//@   requires distinct: forall k1 string, k2 string :: k1 in procs && k2 in procs && k1 != k2 ==> procs[k1] != procs[k2]
+//@   requires keyed: keyedByName(procs)
 //@   modifies *
 //@   atgo scipipe.WorkflowProcess.Run ready-before-start[C16]: forall k string :: k in procs ==> sawReady[procs[k]]
 //@   atgo scipipe.WorkflowProcess.Run member-of-run-set[C16]: exists k string :: k in procs && procs[k] == $arg0
@@ -1029,7 +1031,7 @@ package scipipe
 
 //@ func (*Workflow).Run(wf)
 //@   props C16
-//@   requires distinct: forall k1 string, k2 string :: k1 in wf.procs && k2 in wf.procs && k1 != k2 ==> wf.procs[k1] != wf.procs[k2]
+//@   requires keyed: keyedByName(wf.procs)
 //@   modifies *
 
 //@ func (*Workflow).RunToProcs(wf, finalProcs)
